@@ -1,3 +1,13 @@
 #![allow(dead_code, unused_imports, unused_variables, unused_assignments, unused_mut)]
 #[cfg(kani)]
 mod c16;
+#[cfg(kani)]
+mod c19;
+#[cfg(kani)]
+mod c02;
+#[cfg(kani)]
+mod c12;
+#[cfg(kani)]
+mod c17;
+#[cfg(kani)]
+mod c20;
